@@ -122,6 +122,8 @@ class ActionsFamily:
             return self.gen_twins(rng, idx, opts)
         if sub == 'duel':
             return self.gen_duel(rng, idx, opts)
+        if sub == 'b2b':
+            return self.gen_b2b(rng, idx, opts)
         kind, wf = models(rng)
         ops = [{'op': 'start', 'mid': 'm1', 'vars': {'pid': 'p1'}}, {'op': 'quiesce'}, {'op': 'snapshot', 'level': 'rows'}]
         n = rng.randint(4, 10)
@@ -157,6 +159,24 @@ class ActionsFamily:
                     'models': [json.dumps(wf)], 'responder': {'mode': 'quiescent', 'rules': [{'match': {'uses': IRQ}, 'action': 'next', 'times': 100}]}, 'ops': ops}
         return {'scenarios': [build(k), build(1)], 'meta': {'wf': wf, 'sub': 'twins', 'action': action, 'threads': k, 'pos': pos, 'nacts': nacts},
                 'digest': digest([nacts, pos, action, k, workers, pause]), 'nontrivial': True}
+
+    def gen_b2b(self, rng, idx, opts):
+        """two or three actions issued back to back WITHOUT waiting for quiescence: the work scheduled by the first
+        (successor tasks still in the queue, messages not yet dispatched) is in flight when the next one arrives;
+        deterministic on a current-thread runtime"""
+        kind, wf = models(rng)
+        ops = [{'op': 'start', 'mid': 'm1', 'vars': {'pid': 'p1'}}, {'op': 'quiesce'}]
+        for _ in range(rng.randint(1, 3)):
+            for j in range(rng.randint(2, 3)):
+                action = rng.choice(['next', 'next', 'abort', 'skip', 'error', 'submit', 'remove', 'back', 'push'])
+                tgt = {'pid': 'p1', 'kind': 'act', 'state': 'interrupted', 'occ': rng.choice([0, 0, 1, -1])} if action != 'push' else {'pid': 'p1', 'kind': 'step', 'state': 'running', 'occ': rng.choice([0, -1])}
+                ops.append({'op': 'act', 'target': tgt, 'action': action, 'options': options_for(rng, action, wf, 0.9)})
+            ops += [{'op': 'quiesce'}, {'op': 'snapshot', 'level': 'rows'}]
+        ops += [{'op': 'run'}, {'op': 'snapshot', 'level': 'rows'}]
+        rt = rng.choice([{'flavor': 'current'}, {'flavor': 'current'}, {'flavor': 'current', 'chaos': {'max_yields': 3, 'seed': rng.randrange(1, 1 << 40)}}, {'flavor': 'multi', 'workers': 2, 'chaos': {'max_yields': 2, 'seed': rng.randrange(1, 1 << 40)}}])
+        sc = {'id': '', 'family': 'actions', 'sched': 'b2b-' + rt['flavor'], 'seed': rng.randrange(1 << 30), 'runtime': rt, 'engine': {'store': 'mem', 'keep_processes': True},
+              'models': [json.dumps(wf)], 'responder': {'mode': 'quiescent', 'rules': [{'match': {'uses': IRQ}, 'action': 'next', 'times': 100}]}, 'ops': ops}
+        return {'scenarios': [sc], 'meta': {'wf': wf, 'kind': kind, 'sub': 'b2b'}, 'digest': digest([wf, ops]), 'nontrivial': True}
 
     def gen_duel(self, rng, idx, opts):
         """different terminal actions racing on acts of sibling branches / the same act (C02/C03 hostile workload)"""
